@@ -172,6 +172,11 @@ def run_case(case):
         obs["counters"]["unparseable_output"] = 1
         return obs
     obs["counters"]["bundles_checked"] = 1
+    if not procs:
+        # a bundle without any procedure: the program itself is missing from what was asked to contain it
+        obs["key"] = "empty|%r" % pname
+        obs["viols"].append({"sig": "C13/root-missing/no-procedure-in-output", "detail": dict(detail, emitted=out[:200])})
+        return obs
     names = [(p.name or "").lower() for p in procs]
     expected_name = pname if re.fullmatch(r"[a-zA-Z0-9_-]+", pname) else "program"
     g = lib_graph()
@@ -268,7 +273,7 @@ MAXIMAL = [
 
 def cases(tier, seed):
     n = 400 if tier == "quick" else 60000
-    names = ["prog", "my-p", "A_1", "x", "9lives", "bad name", "é", "", "Zz-9_"]
+    names = ["prog", "my-p", "A_1", "x", "9lives", "bad name", "é", "", "Zz-9_", "game\n", "p\r", "q\n\n", " lead", "trail ", "a.b", "\nx"]
     k = 0
     for t in MAXIMAL:
         for size in (32, 64, 200, 16, 1, 31, 255):
